@@ -35,7 +35,28 @@ def terms_for(sort):
     return {'g': TERMS_G, 'i': TERMS_I, 's': TERMS_S}[sort]
 
 
+def compound(rnd, pool, d=2):
+    """an integer term over the integer variables of the pool"""
+    ints = [v for v in pool if v[1] == 'i'] or [('X', 'i')]
+    if d == 0 or rnd.random() < 0.3:
+        return ivar(rnd.choice(ints)[0]) if rnd.random() < 0.8 else num(rnd.choice([0, 1, -3]))
+    k = rnd.randrange(4)
+    if k == 0:
+        return ineg(compound(rnd, pool, d - 1))
+    return (['add', 'sub', 'mul'][k - 1], compound(rnd, pool, d - 1), compound(rnd, pool, d - 1))
+
+
 def rand_atom(rnd, pool):
+    if rnd.random() < 0.35:
+        k = rnd.randrange(4)
+        if k == 0:
+            return atom('p', compound(rnd, pool), vterm(rnd.choice(pool)))
+        if k == 1:
+            return atom('t', vterm(rnd.choice(pool)), compound(rnd, pool), compound(rnd, pool))
+        if k == 2:
+            return cmp(compound(rnd, pool), rnd.choice(['=', '<', '>=']), vterm(rnd.choice(pool)), rnd.choice(['<', '!=']), compound(rnd, pool),
+                       '<=', vterm(rnd.choice(pool)))
+        return cmp(vterm(rnd.choice(pool)), '<', vterm(rnd.choice(pool)), '<', vterm(rnd.choice(pool)), '<', vterm(rnd.choice(pool)))
     k = rnd.randrange(4)
     a, b = vterm(rnd.choice(pool)), vterm(rnd.choice(pool))
     if k == 0:
@@ -81,6 +102,21 @@ def generate(tier, seed):
                 for t in terms_for(x[1])[:6]:
                     items.append({'family': 'two-binders', 'formula': f1, 'var': x, 'term': t})
                     items.append({'family': 'nested-binders', 'formula': f2, 'var': x, 'term': t})
+    # term-level substitution: every position of compound integer terms, chains of length 1..4, atoms of arity 1..3
+    XI_, YI_ = ivar('X'), ivar('Y')
+    positions = [XI_, ineg(XI_), add(XI_, YI_), add(YI_, XI_), sub(YI_, XI_), mul(YI_, XI_), ineg(add(YI_, XI_)), add(YI_, ineg(XI_)),
+                 mul(add(YI_, num(1)), sub(num(2), XI_)), sub(sub(YI_, num(1)), mul(num(3), ineg(XI_)))]
+    for tpos in positions:
+        shapes = [atom('q', tpos), atom('p', YI_, tpos), atom('t', YI_, gvar('X'), tpos), atom('t', tpos, YI_, svar('X')),
+                  cmp(tpos, '<', YI_), cmp(YI_, '<=', tpos), cmp(YI_, '<', num(1), '<', tpos), cmp(YI_, '<', tpos, '<', num(9), '!=', gvar('X')),
+                  cmp(num(0), '<=', YI_, '<', num(7), '<=', gvar('Y'), '!=', tpos)]
+        for f0 in shapes:
+            for f in (f0, exists([var('Y', 'i')], f0), forall([var('X')], conj(f0, atom('q', gvar('X'))))):
+                for t in (num(5), add(ivar('Z'), num(1))):
+                    items.append({'family': 'term-positions', 'formula': f, 'var': ('X', 'i'), 'term': t})
+                for t in (gvar('Z'), ivar('X')):
+                    items.append({'family': 'term-positions', 'formula': f, 'var': ('X', 'g'), 'term': t})
+                items.append({'family': 'term-positions', 'formula': f, 'var': ('X', 's'), 'term': sym('a')})
     # several binders of one block need renaming at once: the term mentions two or three block variables
     blockvars = [('X', 'i'), ('X1', 'i'), ('X2', 'i'), ('X11', 'i'), ('X', 'g'), ('X1', 'g')]
     multi_terms = [add(ivar('X'), ivar('X1')), sub(ivar('X1'), ivar('X')), add(ivar('X1'), ivar('X11')),
@@ -163,7 +199,7 @@ def check_item(item):
             lhs = ctx.ht(g, w)
             rhs = ctx.ht(f, w, env=({} if wrong == 'no-assign' else env))
             goals.append(lhs != rhs)
-        preds = [('p', 2), ('q', 1), ('r', 1)]
+        preds = [('p', 2), ('q', 1), ('r', 1), ('t', 3)]
         side = ctx.order_axioms() + ctx.subset_conditions(preds) + ctx.symbol_facts()
         return side + [z3.Or(*goals)]
     res = driver.solve_ladder(build, item.get('timeout_ms', 10000))
